@@ -76,7 +76,12 @@ var (
 	scratch  string
 	oldBytes = map[string][]byte{}
 	newBytes = map[string][]byte{}
+	secBytes = map[string][]byte{} // the (shorter) Spec a second writer publishes under the same name
 )
+
+func shortSpec() *specs.Spec {
+	return &specs.Spec{Version: "0.5.0", Kind: "vendor.com/class", Devices: []specs.Device{{Name: "second", ContainerEdits: specs.ContainerEdits{Env: []string{"S=2"}}}}}
+}
 
 // reference bytes: what a complete old / new file looks like (written by the real writer once)
 func prepareReference() {
@@ -93,6 +98,11 @@ func prepareReference() {
 			fmt.Println("INFRA: reference write failed:", err)
 			os.Exit(2)
 		}
+		if err := c.WriteSpec(shortSpec(), "second"+ext); err != nil {
+			fmt.Println("INFRA: reference write failed:", err)
+			os.Exit(2)
+		}
+		secBytes[ext], _ = os.ReadFile(filepath.Join(d, "second"+ext))
 		oldBytes[ext], _ = os.ReadFile(filepath.Join(d, "old"+ext))
 		newBytes[ext], _ = os.ReadFile(filepath.Join(d, "new"+ext))
 	}
@@ -113,11 +123,11 @@ func dirInvariant(dir, ext string) string {
 		if err != nil {
 			continue
 		}
-		if !bytes.Equal(b, oldBytes[ext]) && !bytes.Equal(b, newBytes[ext]) {
+		if !bytes.Equal(b, oldBytes[ext]) && !bytes.Equal(b, newBytes[ext]) && !bytes.Equal(b, secBytes[ext]) {
 			kind := "partial"
 			if len(b) == 0 {
 				kind = "empty"
-			} else if !bytes.HasPrefix(newBytes[ext], b) && !bytes.HasPrefix(oldBytes[ext], b) {
+			} else if !bytes.HasPrefix(newBytes[ext], b) && !bytes.HasPrefix(oldBytes[ext], b) && !bytes.HasPrefix(secBytes[ext], b) {
 				kind = "mixed"
 			}
 			return fmt.Sprintf("%s holds %s content (%d bytes) under a Spec file name", e.Name(), kind, len(b))
@@ -185,10 +195,26 @@ func scenario(cfg Config, n *int) *explore.Scenario {
 			}
 		}
 		in := &explore.Instance{}
-		in.Threads = append(in.Threads, func() { writeErr = cache.WriteSpec(rawSpec("new"), "target"+cfg.Ext) })
+		writerDone := false
+		in.Threads = append(in.Threads, func() {
+			defer func() { sched.Touch(&writerDone); writerDone = true }()
+			writeErr = cache.WriteSpec(rawSpec("new"), "target"+cfg.Ext)
+		})
 		in.Names = append(in.Names, "writer")
 		var readerObs string
+		var write2Err error
 		switch cfg.Reader {
+		case "second-writer":
+			// after the first write has ended - completed, failed or interrupted - another process
+			// writes a shorter Spec under the same name: leftovers of the first must not leak into it
+			in.Threads = append(in.Threads, func() {
+				sched.Block("wait for the first writer", func() bool { return writerDone })
+				sched.Touch(&writerDone)
+				c2, _ := cdi.NewCache(cdi.WithSpecDirs(dir), cdi.WithAutoRefresh(false))
+				write2Err = c2.WriteSpec(shortSpec(), "target"+cfg.Ext)
+				readerObs = fmt.Sprintf("second-write:%v", write2Err == nil)
+			})
+			in.Names = append(in.Names, "writer2")
 		case "readspec":
 			in.Threads = append(in.Threads, func() {
 				s, err := cdi.ReadSpec(target, 0)
@@ -248,6 +274,18 @@ func scenario(cfg Config, n *int) *explore.Scenario {
 			if len(c3.GetErrors()) != 0 {
 				return "leftover-unloadable-spec-file", fmt.Sprintf("after the write a fresh cache reports errors %v", c3.GetErrors()), nil
 			}
+			if cfg.Reader == "second-writer" {
+				if write2Err != nil {
+					return "write-after-interrupted-write-fails", "a clean WriteSpec of the same name after a failed/interrupted one returns " + write2Err.Error(), nil
+				}
+				if devs != "[vendor.com/class=second]" {
+					return "write-after-interrupted-write-not-visible", "the second WriteSpec returned nil but a fresh cache lists " + devs, nil
+				}
+				if b, err := os.ReadFile(target); err != nil || !bytes.Equal(b, secBytes[cfg.Ext]) {
+					return "write-after-interrupted-write-damaged", fmt.Sprintf("the file published by the second writer is not the complete second Spec (%d bytes, want %d)", len(b), len(secBytes[cfg.Ext])), nil
+				}
+				return "", "", nil
+			}
 			crashed := false
 			for _, p := range e.Trace {
 				if p.Kind != sched.KindSched && p.Chosen != 0 && p.Alts[p.Chosen] == "CRASH" {
@@ -305,6 +343,9 @@ func configs(thorough bool) []Config {
 				}
 				if thorough {
 					out = append(out, Config{ext, prev, dirExist, "none", "fault2", 2})
+				}
+				for _, mode := range []string{"crash", "fault"} {
+					out = append(out, Config{ext, prev, dirExist, "second-writer", mode, 2})
 				}
 				for _, reader := range []string{"readspec", "freshcache"} {
 					mode := "schedule"
